@@ -535,3 +535,192 @@ Theorem c19_qr_rank_iff_full_col_rank_QI m n (a : mat QIF) : wf m n a -> n <= m 
   qq_run_lawsb m n a = true -> (qq_rank (qq_qrd m n a) = n <-> full_col_rank m n a).
 Proof. exact (qq_rank_full_iff_full_col_rank m n a). Qed.
 Print Assumptions c19_qr_rank_iff_full_col_rank_QI.
+
+(* ================= session 5, package L: determinant for every n, row-order independence =================
+   det_lap K n a (LuDetModel) = Laplace expansion along the first column, every n: the specification of
+   "Returns the determinant of the matrix".  Order premises (OP) as in c19_lu_solves. *)
+Require Import LV.Lin.LuDetModel LV.Lin.LuDetAlg LV.Lin.LuDetProofs LV.Lin.LuRowOrderProofs LV.Lin.DivideProofs
+               LV.Lin.LuDetExamples.
+
+(* every n, every outcome of the comparisons: pivots nonzero => the returned determinant is det A
+   (replaces the bound n <= 3 of c19_lu_det_le3) *)
+Theorem c19_lu_det_every_n (K : CField) (M : Type) (nrm2 : K -> M) (mulM : M -> M -> M)
+    (ltM : M -> M -> bool) (zeroM : M) (scale_of_max : M -> M) n (a : mat K) :
+  wf n n a -> pivots_nonzero K M nrm2 mulM ltM zeroM scale_of_max a n ->
+  lu_d K M (lu K M nrm2 mulM ltM zeroM scale_of_max a n) = det_lap K n a.
+Proof. exact (lu_det_pivots_nonzero K M nrm2 mulM ltM zeroM scale_of_max a n). Qed.
+Print Assumptions c19_lu_det_every_n.
+
+(* every n, EVERY matrix (OP): the determinant accumulator of the exact-field model is det A, singular
+   inputs included (P A = L U holds on every input: c19_lu_PA_eq_LU_every_input) *)
+Theorem c19_lu_det_every_input (K : CField) (M : Type) (nrm2 : K -> M) (mulM : M -> M -> M)
+    (ltM : M -> M -> bool) (zeroM : M) (scale_of_max : M -> M) :
+  (forall x, ltM x x = false) ->
+  (forall x y z, ltM x y = true -> ltM y z = true -> ltM x z = true) ->
+  (forall x y z, ltM x z = true -> ltM x y = false -> ltM y z = true) ->
+  (forall x y, ltM zeroM x = true -> ltM zeroM y = true -> ltM zeroM (mulM x y) = true) ->
+  (forall x, mulM x zeroM = zeroM) ->
+  nrm2 c0 = zeroM ->
+  (forall x : K, x <> c0 -> ltM zeroM (nrm2 x) = true) ->
+  (forall x, ltM zeroM x = true -> ltM zeroM (scale_of_max x) = true) ->
+  (forall x : K, x = c0 \/ x <> c0) ->
+  forall (a : mat K) n, wf n n a -> lu_d K M (lu K M nrm2 mulM ltM zeroM scale_of_max a n) = det_lap K n a.
+Proof. exact (lu_det_all_n K M nrm2 mulM ltM zeroM scale_of_max). Qed.
+Print Assumptions c19_lu_det_every_input.
+
+Theorem c19_lu_PA_eq_LU_every_input (K : CField) (M : Type) (nrm2 : K -> M) (mulM : M -> M -> M)
+    (ltM : M -> M -> bool) (zeroM : M) (scale_of_max : M -> M) :
+  (forall x, ltM x x = false) ->
+  (forall x y z, ltM x y = true -> ltM y z = true -> ltM x z = true) ->
+  (forall x y z, ltM x z = true -> ltM x y = false -> ltM y z = true) ->
+  (forall x y, ltM zeroM x = true -> ltM zeroM y = true -> ltM zeroM (mulM x y) = true) ->
+  (forall x, mulM x zeroM = zeroM) ->
+  nrm2 c0 = zeroM ->
+  (forall x : K, x <> c0 -> ltM zeroM (nrm2 x) = true) ->
+  (forall x, ltM zeroM x = true -> ltM zeroM (scale_of_max x) = true) ->
+  (forall x : K, x = c0 \/ x <> c0) ->
+  forall (a : mat K) n, wf n n a -> forall i c, i < n -> c < n ->
+    mget K a (nth i (lu_ri K M (lu K M nrm2 mulM ltM zeroM scale_of_max a n)) O) c =
+    sumf n (fun k => cmul (Lf K (mget K (lu_a K M (lu K M nrm2 mulM ltM zeroM scale_of_max a n))) i k)
+                          (Uf K (mget K (lu_a K M (lu K M nrm2 mulM ltM zeroM scale_of_max a n))) k c)).
+Proof. exact (lu_PA_eq_LU_all K M nrm2 mulM ltM zeroM scale_of_max). Qed.
+Print Assumptions c19_lu_PA_eq_LU_every_input.
+
+Theorem c19_det_nonzero_iff_kernel_trivial (K : CField) (M : Type) (nrm2 : K -> M) (mulM : M -> M -> M)
+    (ltM : M -> M -> bool) (zeroM : M) (scale_of_max : M -> M) :
+  (forall x, ltM x x = false) ->
+  (forall x y z, ltM x y = true -> ltM y z = true -> ltM x z = true) ->
+  (forall x y z, ltM x z = true -> ltM x y = false -> ltM y z = true) ->
+  (forall x y, ltM zeroM x = true -> ltM zeroM y = true -> ltM zeroM (mulM x y) = true) ->
+  (forall x, mulM x zeroM = zeroM) ->
+  nrm2 c0 = zeroM ->
+  (forall x : K, x <> c0 -> ltM zeroM (nrm2 x) = true) ->
+  (forall x, ltM zeroM x = true -> ltM zeroM (scale_of_max x) = true) ->
+  (forall x : K, x = c0 \/ x <> c0) ->
+  forall (a : mat K) n, wf n n a -> (det_lap K n a <> c0 <-> kernel_trivial K a n).
+Proof. exact (det_nonzero_iff_kernel_trivial K M nrm2 mulM ltM zeroM scale_of_max). Qed.
+Print Assumptions c19_det_nonzero_iff_kernel_trivial.
+
+Theorem c19_singular_iff_det_zero (K : CField) (M : Type) (nrm2 : K -> M) (mulM : M -> M -> M)
+    (ltM : M -> M -> bool) (zeroM : M) (scale_of_max : M -> M) :
+  (forall x, ltM x x = false) ->
+  (forall x y z, ltM x y = true -> ltM y z = true -> ltM x z = true) ->
+  (forall x y z, ltM x z = true -> ltM x y = false -> ltM y z = true) ->
+  (forall x y, ltM zeroM x = true -> ltM zeroM y = true -> ltM zeroM (mulM x y) = true) ->
+  (forall x, mulM x zeroM = zeroM) ->
+  nrm2 c0 = zeroM ->
+  (forall x : K, x <> c0 -> ltM zeroM (nrm2 x) = true) ->
+  (forall x, ltM zeroM x = true -> ltM zeroM (scale_of_max x) = true) ->
+  (forall x : K, x = c0 \/ x <> c0) ->
+  forall (isz : K -> bool), (forall x : K, isz x = true <-> x = c0) ->
+  forall (a : mat K) n, wf n n a -> (singular K a n <-> det_lap K n a = c0).
+Proof. exact (singular_iff_det_zero K M nrm2 mulM ltM zeroM scale_of_max). Qed.
+Print Assumptions c19_singular_iff_det_zero.
+
+(* what _vnacommon_lu returns (outcome model lu_c): a finite value IS det A (so 0 is returned only when
+   det A = 0); NaN is returned only when det A = 0; the full call-site test rejects exactly det A = 0 *)
+Theorem c19_lu_c_det_is_det (K : CField) (M : Type) (nrm2 : K -> M) (mulM : M -> M -> M)
+    (ltM : M -> M -> bool) (zeroM : M) (scale_of_max : M -> M) :
+  (forall x, ltM x x = false) ->
+  (forall x y z, ltM x y = true -> ltM y z = true -> ltM x z = true) ->
+  (forall x y z, ltM x z = true -> ltM x y = false -> ltM y z = true) ->
+  (forall x y, ltM zeroM x = true -> ltM zeroM y = true -> ltM zeroM (mulM x y) = true) ->
+  (forall x, mulM x zeroM = zeroM) ->
+  nrm2 c0 = zeroM ->
+  (forall x : K, x <> c0 -> ltM zeroM (nrm2 x) = true) ->
+  (forall x, ltM zeroM x = true -> ltM zeroM (scale_of_max x) = true) ->
+  (forall x : K, x = c0 \/ x <> c0) ->
+  forall (isz : K -> bool), (forall x : K, isz x = true <-> x = c0) ->
+  forall (a : mat K) n, wf n n a ->
+  match lu_c_det K M (lu_c K M nrm2 mulM ltM zeroM scale_of_max isz a n) with
+  | DetFin d => d = det_lap K n a
+  | DetNaN => det_lap K n a = c0
+  end.
+Proof. exact (lu_c_det_is_det K M nrm2 mulM ltM zeroM scale_of_max). Qed.
+Print Assumptions c19_lu_c_det_is_det.
+
+Theorem c19_lu_c_rejects_iff_det_zero (K : CField) (M : Type) (nrm2 : K -> M) (mulM : M -> M -> M)
+    (ltM : M -> M -> bool) (zeroM : M) (scale_of_max : M -> M) :
+  (forall x, ltM x x = false) ->
+  (forall x y z, ltM x y = true -> ltM y z = true -> ltM x z = true) ->
+  (forall x y z, ltM x z = true -> ltM x y = false -> ltM y z = true) ->
+  (forall x y, ltM zeroM x = true -> ltM zeroM y = true -> ltM zeroM (mulM x y) = true) ->
+  (forall x, mulM x zeroM = zeroM) ->
+  nrm2 c0 = zeroM ->
+  (forall x : K, x <> c0 -> ltM zeroM (nrm2 x) = true) ->
+  (forall x, ltM zeroM x = true -> ltM zeroM (scale_of_max x) = true) ->
+  (forall x : K, x = c0 \/ x <> c0) ->
+  forall (isz : K -> bool), (forall x : K, isz x = true <-> x = c0) ->
+  forall (a : mat K) n, wf n n a ->
+  (site_rejects_full K isz (lu_c_det K M (lu_c K M nrm2 mulM ltM zeroM scale_of_max isz a n)) = true <-> det_lap K n a = c0).
+Proof. exact (lu_c_rejects_iff_det_zero K M nrm2 mulM ltM zeroM scale_of_max). Qed.
+Print Assumptions c19_lu_c_rejects_iff_det_zero.
+
+(* mldivide / mrdivide / minverse as coded, from det A <> 0: every n, every right-hand-side shape; the
+   value returned with the solution is det A *)
+Theorem c19_divide_solves_det (K : CField) (M : Type) (nrm2 : K -> M) (mulM : M -> M -> M)
+    (ltM : M -> M -> bool) (zeroM : M) (scale_of_max : M -> M) :
+  (forall x, ltM x x = false) ->
+  (forall x y z, ltM x y = true -> ltM y z = true -> ltM x z = true) ->
+  (forall x y z, ltM x z = true -> ltM x y = false -> ltM y z = true) ->
+  (forall x y, ltM zeroM x = true -> ltM zeroM y = true -> ltM zeroM (mulM x y) = true) ->
+  (forall x, mulM x zeroM = zeroM) ->
+  nrm2 c0 = zeroM ->
+  (forall x : K, x <> c0 -> ltM zeroM (nrm2 x) = true) ->
+  (forall x, ltM zeroM x = true -> ltM zeroM (scale_of_max x) = true) ->
+  (forall x : K, x = c0 \/ x <> c0) ->
+  forall n (a : mat K), wf n n a -> det_lap K n a <> c0 ->
+  (forall m (b : mat K), wf n m b -> forall i k, i < n -> k < m ->
+      mget K (mmul K n n m a (fst (mldivide K M nrm2 mulM ltM zeroM scale_of_max a b n m))) i k = mget K b i k /\
+      snd (mldivide K M nrm2 mulM ltM zeroM scale_of_max a b n m) = det_lap K n a) /\
+  (forall m (b : mat K), wf m n b -> forall i k, i < m -> k < n ->
+      mget K (mmul K m n n (fst (mrdivide K M nrm2 mulM ltM zeroM scale_of_max b a m n)) a) i k = mget K b i k /\
+      snd (mrdivide K M nrm2 mulM ltM zeroM scale_of_max b a m n) = det_lap K n a) /\
+  (forall i k, i < n -> k < n ->
+      mget K (mmul K n n n a (fst (minverse K M nrm2 mulM ltM zeroM scale_of_max a n))) i k = (if Nat.eqb i k then c1 else c0)) /\
+  snd (minverse K M nrm2 mulM ltM zeroM scale_of_max a n) = det_lap K n a.
+Proof. exact (divide_solves_det K M nrm2 mulM ltM zeroM scale_of_max). Qed.
+Print Assumptions c19_divide_solves_det.
+
+(* row-order independence, every n: a' = a with its rows permuted (row i of a' = row sg i of a, ts the
+   inverse of sg).  If the pivot search of the run on a is decided at every column (run_decided: one
+   candidate strictly above all others, and above 0 unless the column is the last) then the run on a'
+   picks the same ORIGINAL rows, and produces the same working array (same U, same L multipliers). *)
+Theorem c19_lu_row_order_independent (K : CField) (M : Type) (nrm2 : K -> M) (mulM : M -> M -> M)
+    (ltM : M -> M -> bool) (zeroM : M) (scale_of_max : M -> M) :
+  (forall x, ltM x x = false) ->
+  (forall x y z, ltM x y = true -> ltM y z = true -> ltM x z = true) ->
+  forall n (sg ts : nat -> nat),
+  (forall i, i < n -> sg i < n) -> (forall i, i < n -> ts i < n) ->
+  (forall i, i < n -> ts (sg i) = i) -> (forall i, i < n -> sg (ts i) = i) ->
+  forall (a a' : mat K), wf n n a -> wf n n a' ->
+  (forall i c, i < n -> c < n -> mget K a' i c = mget K a (sg i) c) ->
+  run_decided K M nrm2 mulM ltM zeroM scale_of_max a n ->
+  map sg (lu_pivots K M (lu K M nrm2 mulM ltM zeroM scale_of_max a' n)) = lu_pivots K M (lu K M nrm2 mulM ltM zeroM scale_of_max a n) /\
+  (forall i, i < n -> sg (nth i (lu_ri K M (lu K M nrm2 mulM ltM zeroM scale_of_max a' n)) O) = nth i (lu_ri K M (lu K M nrm2 mulM ltM zeroM scale_of_max a n)) O) /\
+  (forall i c, i < n -> c < n ->
+     mget K (lu_a K M (lu K M nrm2 mulM ltM zeroM scale_of_max a' n)) i c = mget K (lu_a K M (lu K M nrm2 mulM ltM zeroM scale_of_max a n)) i c).
+Proof. exact (lu_row_order_independent K M nrm2 mulM ltM zeroM scale_of_max). Qed.
+Print Assumptions c19_lu_row_order_independent.
+
+(* ... and mldivide on the permuted system (A, b) returns the SAME matrix, computed by the same operations *)
+Theorem c19_mldivide_row_order_independent (K : CField) (M : Type) (nrm2 : K -> M) (mulM : M -> M -> M)
+    (ltM : M -> M -> bool) (zeroM : M) (scale_of_max : M -> M) :
+  (forall x, ltM x x = false) ->
+  (forall x y z, ltM x y = true -> ltM y z = true -> ltM x z = true) ->
+  forall n (sg ts : nat -> nat),
+  (forall i, i < n -> sg i < n) -> (forall i, i < n -> ts i < n) ->
+  (forall i, i < n -> ts (sg i) = i) -> (forall i, i < n -> sg (ts i) = i) ->
+  forall (a a' : mat K), wf n n a -> wf n n a' ->
+  (forall i c, i < n -> c < n -> mget K a' i c = mget K a (sg i) c) ->
+  forall m (b b' : mat K), run_decided K M nrm2 mulM ltM zeroM scale_of_max a n ->
+  (forall i k, i < n -> k < m -> mget K b' i k = mget K b (sg i) k) ->
+  fst (mldivide K M nrm2 mulM ltM zeroM scale_of_max a' b' n m) = fst (mldivide K M nrm2 mulM ltM zeroM scale_of_max a b n m).
+Proof. exact (mldivide_row_order_independent K M nrm2 mulM ltM zeroM scale_of_max). Qed.
+Print Assumptions c19_mldivide_row_order_independent.
+
+(* the instance the tie runs (Q[i], Qc, reciprocal row scale): no premise left *)
+Theorem c19_lu_det_QI (a : mat QIF) n : wf n n a ->
+  lu_d QIF Qc (q2_lu_recip a n) = det_lap QIF n a.
+Proof. exact (q_lu_det_all_n a n). Qed.
+Print Assumptions c19_lu_det_QI.
